@@ -11,9 +11,13 @@ What is modelled, line by line, from the code that exists:
   `slashing_protection.IsSlashableAttestation/Proposal`, `UpdateHighestAttestation/Proposal`
   (their exact comparisons, including the record-missing branches).
 
-One share. Durable state = the two records and the wallet account; the only volatile state is an in-flight
-`BumpSlashingProtection` (it runs outside every lock that signing takes, so its clock read, its two reads and
-its two writes are separate steps). A restart is the identity on durable state and kills the in-flight bump.
+One share. Durable state = the two records and the wallet account; the volatile state is an in-flight
+`BumpSlashingProtection`, whose clock read, two reads and two writes are separate steps, and a request waiting for it.
+Since commit 23d9c6c97 the bump holds the wallet lock for WRITING for its whole body, and every sign request,
+AddShare and RemoveShare take that lock too: while a bump is in flight only the clock can advance (and the process
+can be restarted); a lock-taking request issued meanwhile is DELAYED and executes when the bump has finished
+(`step`). The semantics before that commit — the bump interleaves freely with sign requests — is kept as `stepOld`.
+A restart is the identity on durable state and kills the in-flight bump.
 Released signatures accumulate in a ghost log. Epoch/slot numbers are `Nat` (the Go `uint64` wrap of
 `highestTarget - 1` at epoch 0 is modelled explicitly; `slot + gap` is assumed not to overflow).
 -/
@@ -50,17 +54,6 @@ inductive BumpPc
   | propWrite (c : Nat) (w : Nat)     -- decided to `SaveHighestProposal w`
   deriving Repr, DecidableEq
 
-structure State where
-  clock : Nat                 -- current slot (monotone)
-  d : Durable
-  pend : Option BumpPc
-  atts : List Att             -- ghost: released attestation signatures, newest first
-  blocks : List Nat           -- ghost: released block signatures (slots), newest first
-  deriving Repr, DecidableEq
-
-def init (clock : Nat) : State :=
-  { clock := clock, d := ⟨none, none, false⟩, pend := none, atts := [], blocks := [] }
-
 inductive Refuse
   | noAccount          -- `wallet.AccountByPublicKey` fails
   | farFutureTarget | farFutureSource | farFutureSlot
@@ -79,7 +72,8 @@ inductive Out
   | pending                   -- the in-flight bump advanced and is still in flight
   | errPropSlotZero           -- `SaveHighestProposal` refused slot 0 (bump / AddShare returned an error)
   | errFault                  -- an injected storage failure made the operation return an error
-  | badOp                     -- op not applicable (no in-flight bump at that pc / one already in flight)
+  | blocked                   -- the request waits for the wallet lock held by the in-flight bump
+  | badOp                     -- op not applicable (no in-flight bump at that pc / one already in flight / nothing to resume)
   deriving Repr, DecidableEq
 
 inductive Op
@@ -97,7 +91,21 @@ inductive Op
   | signBlockFault (slot : Nat)
   | tick (dt : Nat)
   | restart
+  | resume                    -- collect the outcome of the request that was delayed behind a bump
   deriving Repr, DecidableEq
+
+structure State where
+  clock : Nat                 -- current slot (monotone)
+  d : Durable
+  pend : Option BumpPc
+  atts : List Att             -- ghost: released attestation signatures, newest first
+  blocks : List Nat           -- ghost: released block signatures (slots), newest first
+  delayed : Option Op         -- a lock-taking request waiting for the in-flight bump to release the wallet lock
+  delayedOut : Option Out     -- outcome of the last delayed request (reported by `resume`)
+  deriving Repr, DecidableEq
+
+def init (clock : Nat) : State :=
+  { clock := clock, d := ⟨none, none, false⟩, pend := none, atts := [], blocks := [], delayed := none, delayedOut := none }
 
 /-! ### the minimal protection written by a bump -/
 
@@ -237,26 +245,69 @@ def stepSignBlockFault (cfg : Cfg) (s : State) (slot : Nat) : State × Out :=
   | (_, .signed) => (s, .refused .writeFailed)
   | (_, o) => (s, o)
 
-def step (cfg : Cfg) (s : State) : Op → State × Out
+/-- the requests that take the wallet lock (`AddShare`, `RemoveShare`, `BumpSlashingProtection` as a whole, every sign
+    request), executed with the lock available -/
+def stepFree (cfg : Cfg) (s : State) : Op → State × Out
   | .addShare => stepAdd cfg s false false
   | .addFail 0 => stepAdd cfg s true false
   | .addFail (_ + 1) => stepAdd cfg s false true
   | .removeShare => stepRemove s none
   | .removeFail n => stepRemove s (some n)
   | .bump => stepBump cfg s
-  | .bumpBegin => stepBumpBegin s
-  | .bumpRead => stepBumpRead cfg s
-  | .bumpWrite => stepBumpWrite s
   | .signAtt x y => stepSignAtt cfg s x y
   | .signBlock slot => stepSignBlock cfg s slot
   | .signAttFault x y => stepSignAttFault cfg s x y
   | .signBlockFault slot => stepSignBlockFault cfg s slot
+  | _ => (s, .badOp)
+
+/-- the waiting request (if any) gets the lock and executes; its outcome is kept for `resume` -/
+def drain (cfg : Cfg) (s : State) : State :=
+  match s.delayed with
+  | none => s
+  | some op =>
+    let r := stepFree cfg { s with delayed := none } op
+    { r.1 with delayedOut := some r.2 }
+
+/-- a lock-taking request: executes if no bump is in flight, otherwise waits (one waiting request at a time) -/
+def blockOrRun (cfg : Cfg) (s : State) (op : Op) : State × Out :=
+  if s.pend.isSome then
+    if s.delayed.isSome then (s, .badOp) else ({ s with delayed := some op }, .blocked)
+  else stepFree cfg s op
+
+/-- after a step of the in-flight bump: if it has finished, the lock is released and the waiting request runs -/
+def finishBump (cfg : Cfg) (r : State × Out) : State × Out :=
+  if r.1.pend.isNone then (drain cfg r.1, r.2) else r
+
+/-- CURRENT semantics (bump under the wallet write lock) -/
+def step (cfg : Cfg) (s : State) : Op → State × Out
   | .tick dt => ({ s with clock := s.clock + dt }, .ok)
-  | .restart => ({ s with pend := none }, .ok)
+  | .restart => (drain cfg { s with pend := none }, .ok)   -- the bump is aborted; a waiting request still runs first
+  | .resume =>
+    match s.delayedOut with
+    | some o => ({ s with delayedOut := none }, o)
+    | none => (s, .badOp)
+  | .bumpBegin => stepBumpBegin s
+  | .bumpRead => finishBump cfg (stepBumpRead cfg s)
+  | .bumpWrite => finishBump cfg (stepBumpWrite s)
+  | op => blockOrRun cfg s op
 
 def run (cfg : Cfg) (s : State) : List Op → State
   | [] => s
   | op :: ops => run cfg (step cfg s op).1 ops
+
+/-- semantics BEFORE commit 23d9c6c97: `BumpSlashingProtection` took no lock, its steps interleave with everything -/
+def stepOld (cfg : Cfg) (s : State) : Op → State × Out
+  | .tick dt => ({ s with clock := s.clock + dt }, .ok)
+  | .restart => ({ s with pend := none }, .ok)
+  | .resume => (s, .badOp)
+  | .bumpBegin => stepBumpBegin s
+  | .bumpRead => stepBumpRead cfg s
+  | .bumpWrite => stepBumpWrite s
+  | op => stepFree cfg s op
+
+def runOld (cfg : Cfg) (s : State) : List Op → State
+  | [] => s
+  | op :: ops => runOld cfg (stepOld cfg s op).1 ops
 
 /-! ### what is slashable -/
 
